@@ -176,6 +176,23 @@ def gen_c07(seed):
                               "sampler": {"dom": "square", "kind": "grid", "n": 4, "static": "inf"}}],
                    "opt": {"cls": r.choice(("SGD", "Adam")), "lr": r.choice((0.5, 1e-4)), "args": {}, "sched": None},
                    "N": r.choice((1, 2)), "val": [], "trainer": {"sanity": 0}}
+    rl = rnd(seed, "long-run")
+    if rl.random() < 0.008:
+        # a rare LONG run (> 1000 steps) of a cheap world: step counters, epoch boundaries and scheduler phases
+        # of the trainer must agree with the plain loop beyond the first thousand steps too
+        spec["models"] = [{"hidden": [3], "act": "tanh"}]
+        spec["param"] = None
+        spec["conds"] = [{"kind": "pinn", "weight": rl.choice((1.0, 0.5)), "model": 0, "resid": "u_minus_sin", "c": 1.0,
+                          "sampler": {"dom": "square", "kind": "grid", "n": 4, "static": "inf"}}]
+        spec["val"] = []
+        spec.pop("don", None)
+        spec.pop("fsets", None)
+        spec["opt"] = {"cls": "SGD", "lr": 1e-2, "args": {},
+                       "sched": {"cls": "StepLR", "args": {"step_size": 1, "gamma": rl.choice((0.98, 0.995))},
+                                 "freq": rl.choice((3, 7, 600, 1001))}}
+        spec["N"] = rl.choice((1003, 1010, 1205))
+        spec["trainer"] = {"sanity": 0, "check_val_every_n_epoch": 1}
+        fault, prelude = None, None
     return {"format": 1, "property": "C07", "engine": "trainsim", "seed": seed, "rng": H(seed, "rng"),
             "spec": spec, "fault": fault, "prelude": prelude}
 
